@@ -1,6 +1,7 @@
 package checks
 
 import (
+	crand "crypto/rand"
 	"archive/zip"
 	"bytes"
 	"context"
@@ -155,6 +156,10 @@ type c19Case struct {
 	Pick   int      `json:"pick,omitempty"`                 // which endpoint is connected
 	Delta  int64    `json:"validity_delta_seconds,omitempty"`
 	SAN    string   `json:"san,omitempty"` // the name the server certificate carries
+	// SwapTo (valid node chains only): after the first, fully verified connection the same server - same address,
+	// same session-ticket keys - starts presenting a chain of this (invalid) kind; the next connection made with the
+	// same endpoint object must be refused like any other connection to such a server
+	SwapTo string `json:"then_server_presents,omitempty"`
 }
 
 var c19ValidKinds = map[string]bool{"valid": true, "valid-intermediate-sent": true, "valid-wildcard": true, "expires-soon": true}
@@ -224,6 +229,8 @@ func serverChain(c c19Case) tls.Certificate {
 type tlsProbe struct {
 	ln       net.Listener
 	mu       sync.Mutex
+	chain    tls.Certificate
+	ticket   [32]byte // one session-ticket key for the server's lifetime, as a real server has
 	sni      []string
 	certs    [][]byte
 	appBytes [][]byte
@@ -237,7 +244,8 @@ func startProbe(chain tls.Certificate, respond func(first []byte) []byte) (*tlsP
 	if err != nil {
 		return nil, err
 	}
-	p := &tlsProbe{ln: ln}
+	p := &tlsProbe{ln: ln, chain: chain}
+	_, _ = crand.Read(p.ticket[:])
 	go func() {
 		for {
 			nc, err := ln.Accept()
@@ -248,13 +256,17 @@ func startProbe(chain tls.Certificate, respond func(first []byte) []byte) (*tlsP
 			go func() {
 				defer p.wg.Done()
 				defer nc.Close()
-				cfg := &tls.Config{Certificates: []tls.Certificate{chain}, ClientAuth: tls.RequestClientCert,
+				p.mu.Lock()
+				cur := p.chain
+				p.mu.Unlock()
+				cfg := &tls.Config{Certificates: []tls.Certificate{cur}, ClientAuth: tls.RequestClientCert,
 					GetConfigForClient: func(h *tls.ClientHelloInfo) (*tls.Config, error) {
 						p.mu.Lock()
 						p.sni = append(p.sni, h.ServerName)
 						p.mu.Unlock()
 						return nil, nil
 					}}
+				cfg.SetSessionTicketKeys([][32]byte{p.ticket})
 				srv := tls.Server(nc, cfg)
 				_ = nc.SetDeadline(time.Now().Add(5 * time.Second))
 				if err := srv.Handshake(); err != nil {
@@ -292,6 +304,7 @@ func startProbe(chain tls.Certificate, respond func(first []byte) []byte) (*tlsP
 	return p, nil
 }
 
+func (p *tlsProbe) setChain(c tls.Certificate) { p.mu.Lock(); p.chain = c; p.mu.Unlock() }
 func (p *tlsProbe) port() int { return p.ln.Addr().(*net.TCPAddr).Port }
 func (p *tlsProbe) close()    { p.ln.Close(); p.wg.Wait() }
 
@@ -476,6 +489,30 @@ func c19Check(c c19Case) *evid.Fail {
 		if app == 0 || node.appBytes[app-1][4] != byte(primitive.OpCodeStartup) {
 			return evid.Failf("no-startup", "the node did not receive a CQL STARTUP after the TLS handshake (%s)", what)
 		}
+		if c.SwapTo != "" {
+			// the server changes its mind about who it is; the endpoint object (and whatever TLS state it carries
+			// from the verified connection) is used again
+			sw := c
+			sw.Kind = c.SwapTo
+			node.mu.Unlock()
+			node.setChain(serverChain(sw))
+			ctx2, cancel2 := context.WithTimeout(context.Background(), 5*time.Second)
+			cc2, err2 := proxycore.ConnectClient(ctx2, ep, proxycore.ClientConnConfig{})
+			if err2 == nil {
+				_, _ = cc2.Handshake(ctx2, primitive.ProtocolVersion4, nil)
+				_ = cc2.Close()
+			}
+			cancel2()
+			time.Sleep(2 * time.Millisecond)
+			node.mu.Lock()
+			if err2 == nil {
+				return evid.Failf("invalid-server-accepted:node:after-verified-connection:"+c.SwapTo, "after a verified connection, a second connection with the same endpoint accepted the same server presenting chain %q (%s)", c.SwapTo, what)
+			}
+			if len(node.appBytes) > app {
+				return evid.Failf("bytes-sent-to-invalid-server:node:after-verified-connection:"+c.SwapTo, "CQL bytes were sent to a server presenting chain %q after an earlier verified connection", c.SwapTo)
+			}
+			return nil
+		}
 		if c.Kind == "expires-soon" {
 			// the same endpoint is used again after the certificate has expired (a reconnect)
 			leaf, _ := x509.ParseCertificate(nodeChain.Certificate[0])
@@ -555,12 +592,15 @@ func c19Gen(rt *rapid.T) c19Case {
 	case "expired", "not-yet-valid":
 		c.Delta = rapid.SampledFrom([]int64{120, 3600, 86400, 30 * 86400, 365 * 86400, 3650 * 86400}).Draw(rt, "delta")
 	}
+	if c.Kind == "valid" && c.Target != "metadata" && rapid.IntRange(0, 2).Draw(rt, "swap") == 0 {
+		c.SwapTo = rapid.SampledFrom([]string{"self-signed", "other-ca", "forged-issuer-name", "intermediate-missing"}).Draw(rt, "swapto")
+	}
 	return c
 }
 
 func TestC19(t *testing.T) {
 	rec := evid.New("C19", "exploration",
-		"an in-process PKI (bundle CA, unrelated CA, intermediate, a CA forging the bundle CA's subject name) and TLS probe servers for the metadata service and a database node; generated bundle host names (2..4 labels, resolved by an in-process stub DNS), node ids / contact points, and server chains {valid leaf, valid leaf + intermediate sent, wildcard, intermediate missing, other CA, forged issuer name, self-signed, wrong name (unrelated / sibling / wildcard one level off), name only in CN, expired and not-yet-valid by 2 minutes .. 10 years}; connections made the way the proxy makes them (astra.LoadBundleZip, NewResolver.Resolve / NewEndpoint, proxycore.ConnectClient + Handshake); "+
+		"an in-process PKI (bundle CA, unrelated CA, intermediate, a CA forging the bundle CA's subject name) and TLS probe servers for the metadata service and a database node; generated bundle host names (2..4 labels, resolved by an in-process stub DNS), node ids / contact points, and server chains {valid leaf, valid leaf + intermediate sent, wildcard, intermediate missing, other CA, forged issuer name, self-signed, wrong name (unrelated / sibling / wildcard one level off), name only in CN, expired and not-yet-valid by 2 minutes .. 10 years}, and servers that present a valid chain for a first connection and an invalid one (same address, same session-ticket keys) for the next connection made with the same endpoint; connections made the way the proxy makes them (astra.LoadBundleZip, NewResolver.Resolve / NewEndpoint, proxycore.ConnectClient + Handshake); "+
 			"oracle: by construction and cross-checked against a plain crypto/tls client: valid chains are accepted, the server sees the node id as SNI, the bundle's client certificate and then a CQL STARTUP; every other chain makes the connection fail with zero application bytes sent; "+
 			"non-trivial = an invalid chain, or a valid chain with intermediate/wildcard; distinct by case content")
 	defer finish(t, rec)
